@@ -150,6 +150,30 @@ def expect_violation(module, cfg, invariant, **kw):
     return res
 
 
+def models_start(specs, workers=2):
+    """Run model configurations in the background while the drivers work.
+    specs: [(module, cfg, expected violated invariant or None, label)] -> handle for models_finish"""
+    from concurrent.futures import ThreadPoolExecutor
+    ex = ThreadPoolExecutor(max_workers=max(1, len(specs)))
+    futs = []
+    for module, cfg, inv, label in specs:
+        if inv:
+            futs.append((module, label, inv, ex.submit(expect_violation, module, cfg, inv, timeout=1800, workers=workers)))
+        else:
+            futs.append((module, label, None, ex.submit(tlc, module, cfg, timeout=3000, workers=max(workers, 4))))
+    return ex, futs
+
+
+def models_finish(chk, handle):
+    ex, futs = handle
+    for module, label, inv, fut in futs:
+        res = fut.result()
+        if inv is None and res.violation:
+            raise MachineryError("%s.tla violates its own invariants:\n%s" % (module, res.violation))
+        chk.add_tlc(res, label)
+    ex.shutdown()
+
+
 def _parse_tlc(res):
     for i, l in enumerate(res.lines):
         m = re.match(r"(\d+) states generated, (\d+) distinct states found", l)
